@@ -92,6 +92,13 @@ ENTITY v14_ra; item : OPTIONAL v14_a; END_ENTITY;
 ENTITY v14_rb; item : OPTIONAL v14_b; END_ENTITY;""",
             {'targets': ['v14_tgt'], 'referrers': [('v14_ra', [('item', 'single')]), ('v14_rb', [('item', 'single')])],
              'inverses': {'v14_tgt': [('v14_a.used_in', 'v14_ra', 'item', 'set'), ('v14_b.used_in', 'v14_rb', 'item', 'set')]}, 'tparams': {'v14_tgt': 3}}),
+    # the inverted attribute is declared with a defined aggregate type, directly (seq) and through a renaming of it (ord)
+    'v15': ("""TYPE v15_list = LIST [0:?] OF v15_tgt; END_TYPE;
+TYPE v15_ord = v15_list; END_TYPE;
+ENTITY v15_tgt; n : INTEGER; INVERSE in_seq : SET [0:?] OF v15_ref FOR seq; in_ord : SET [0:?] OF v15_ref FOR ord; END_ENTITY;
+ENTITY v15_ref; seq : v15_list; ord : v15_ord; END_ENTITY;""",
+            {'targets': ['v15_tgt'], 'referrers': [('v15_ref', [('seq', 'aggr'), ('ord', 'aggr')])],
+             'inverses': {'v15_tgt': [('in_seq', 'v15_ref', 'seq', 'set'), ('in_ord', 'v15_ref', 'ord', 'set')]}}),
 }
 SCHEMA = 'SCHEMA iv;\n' + '\n'.join(v[0] for v in VARIANTS.values()) + '\nEND_SCHEMA;\n'
 
@@ -129,6 +136,8 @@ def populations(vname, desc, tier):
         # referrer slots: up to 3 referrer instances, each of one referrer entity
         rents = desc['referrers']
         maxref = 2 if tier == 'quick' and len(rents) > 1 else 3
+        if sum(1 for _, at in rents for _, kd in at if kd == 'aggr') > 1:
+            maxref = 1 if tier == 'quick' else 2        # two aggregate attributes per referrer: 49 value combinations each
         if tier == 'thorough' and all(len(a) == 1 and a[0][1] == 'single' for _, a in rents) and len(rents) <= 2 and ntargets <= 2:
             maxref = 4
         for nref in range(0, maxref + 1):
